@@ -156,14 +156,32 @@ WINDOWS = [0.5, 0.25, 1.0]
 DEVIATIONS_8 = [0, 0, 0, 1, -1, 2, -2, 3, -3, 4, -4, 5, -5, 8, 96, -96, 97, 100, -92, 48]  # in 1/8 semitones
 
 
-def melody_series(rng, n, allow_negative, start=None, step=None):
-    """times on the 1/64 lattice, frequencies on the pitch lattice with
+def time_grid(rng, n, start, step, mode=None):
+    """n increasing times.  'dyadic': (start + i*step)/64, exact in floats;
+    'decimal': (start + i*step)*0.01 as a float product (the usual 10 ms frame
+    grid, not exact in binary); 'jitter': the dyadic grid plus a tiny random
+    perturbation (stress test of the margins)."""
+    if mode is None:
+        mode = rng.choice(["dyadic"] * 7 + ["decimal"] * 2 + ["jitter"])
+    if mode == "decimal":
+        return np.array([(start + i * step) * 0.01 for i in range(n)], dtype=float)
+    t = np.array([(start + i * step) / 64.0 for i in range(n)], dtype=float)
+    if mode == "jitter":
+        amp = rng.choice([1e-13, 1e-11, 1e-9, 1e-7, 1e-5])
+        t = t + np.array([amp * rng.random() for _ in range(n)])
+        if n and start == 0 and rng.random() < 0.7:
+            t[0] = 0.0
+    return t
+
+
+def melody_series(rng, n, allow_negative, start=None, step=None, mode=None):
+    """times on a grid (see time_grid), frequencies on the pitch lattice with
     unvoiced (0) and, for estimates, negative frames."""
     if start is None:
         start = rng.choice([0, 0, 0, 1, 2, 5])
     if step is None:
         step = rng.choice([1, 1, 2, 3, 4])
-    times = np.array([(start + i * step) / 64.0 for i in range(n)])
+    times = time_grid(rng, n, start, step, mode)
     m = grid_midi(rng)
     freqs = []
     for _ in range(n):
@@ -248,7 +266,7 @@ def g_timebase(rng):
 
 def g_resample_melody(rng):
     n = rng.choice([1, 2, 3, 6, 12])
-    times, f = melody_series(rng, n, False)
+    times, f = melody_series(rng, n, False, mode=rng.choice(["dyadic"] * 8 + ["jitter"] * 2))
     if rng.random() < 0.5:
         f = MEL.hz2cents(f)[0]
     v = voicing_values(rng, n)
@@ -259,7 +277,7 @@ def g_resample_melody(rng):
         new = times + rng.choice([0.0, 1e-9, 1e-12])
     else:
         k = rng.choice([0, 1, 2, 4, 9, 15])
-        start = int(round(times[0] * 64)) + rng.choice([0, 0, 1, 2])
+        start = int(np.ceil(times[0] * 64)) + rng.choice([0, 0, 1, 2])
         step = rng.choice([1, 2, 3, 5])
         new = np.array([(start + i * step) / 64.0 for i in range(k)])
         if rng.random() < 0.2 and k:
@@ -273,20 +291,24 @@ def g_to_cent_voicing(rng, allow_empty=True):
     if rng.random() < 0.93:
         nr = max(nr, 1)
         ne = max(ne, 1)
-    rt, rf = melody_series(rng, nr, rng.random() < 0.1)
+    mode = rng.choice(["dyadic"] * 7 + ["decimal"] * 2 + ["jitter"])
+    unit = 0.01 if mode == "decimal" else 1 / 64.0
+    rstart, rstep = rng.choice([0, 0, 0, 1, 2, 5]), rng.choice([1, 1, 2, 3, 4])
+    rt, rf = melody_series(rng, nr, rng.random() < 0.1, rstart, rstep, mode)
     if rng.random() < 0.25 and nr:
-        et, ef = melody_series(rng, nr, True, start=int(round(rt[0] * 64)),
-                               step=int(round((rt[1] - rt[0]) * 64)) if nr > 1 else 1)
+        et, ef = melody_series(rng, nr, True, rstart, rstep,
+                               "dyadic" if mode == "jitter" else mode)
         ne = nr
     else:
-        et, ef = melody_series(rng, ne, True)
+        et, ef = melody_series(rng, ne, True, mode=mode)
     kwargs = {}
     if rng.random() < 0.4:
         kwargs["est_voicing"] = voicing_values(rng, ne)
     if rng.random() < 0.4:
         kwargs["ref_reward"] = voicing_values(rng, nr)
     if rng.random() < 0.4:
-        kwargs["hop"] = rng.choice([1, 2, 3, 5]) / rng.choice([64.0, 128.0])
+        kwargs["hop"] = (rng.choice([1, 2, 3, 5]) / rng.choice([64.0, 128.0]) if unit != 0.01
+                         else rng.choice([0.01, 0.02, 0.005, 0.0058, 0.03]))
     if rng.random() < 0.2:
         kwargs["base_frequency"] = rng.choice([10.0, 55.0, 440.0])
     return (rt, rf, et, ef), kwargs
@@ -348,7 +370,7 @@ def g_resample_multipitch(rng):
     n = rng.choice([0, 1, 2, 3, 6])
     start = rng.choice([0, 0, 3])
     step = rng.choice([1, 2, 3])
-    times = np.array([(start + i * step) / 64.0 for i in range(n)])
+    times = time_grid(rng, n, start, step, rng.choice(["dyadic"] * 8 + ["jitter"] * 2))
     freqs = multipitch_frames(rng, n)
     k = rng.choice([0, 1, 3, 7])
     target = np.array(sorted(rng.randrange(0, 4 * 64) / 256.0 + rng.choice([0, 0, 1 / 1024.0])
@@ -399,13 +421,17 @@ def g_multipitch_metrics(rng):
     nr = rng.choice([0, 1, 2, 4, 8])
     start = rng.choice([0, 0, 2])
     step = rng.choice([1, 2])
-    rt = np.array([(start + i * step) / 64.0 for i in range(nr)])
+    mode = rng.choice(["dyadic"] * 7 + ["decimal"] * 2 + ["jitter"])
+    rt = time_grid(rng, nr, start, step, mode)
     rf = multipitch_frames(rng, nr)
     u = rng.random()
     if u < 0.35:
         et = rt.copy()
     elif u < 0.45:
         et = rt + 1e-9
+    elif mode == "decimal":
+        ne = rng.choice([0, 1, 2, 4, 8, 12])
+        et = time_grid(rng, ne, rng.choice([0, 0, 1, 3]), rng.choice([1, 2, 3]), mode)
     else:
         ne = rng.choice([0, 1, 2, 4, 8, 12])
         s2 = rng.choice([0, 0, 1, 2, 3])
@@ -461,6 +487,12 @@ def notes(rng, big=False):
         est_iv, est_p, est_v = [], [], []
     if not big and len(est_iv) > 8 and rng.random() < 0.8:
         est_iv, est_p, est_v = est_iv[:8], est_p[:8], est_v[:8]
+    if rng.random() < 0.12:  # stress: tiny perturbations of every time
+        amp = rng.choice([1e-13, 1e-10, 1e-8, 1e-6, 3e-5])
+        ref_iv = [[a + amp * rng.random(), b + amp * rng.random()] for a, b in ref_iv]
+        est_iv = [[a + amp * rng.random(), b + amp * rng.random()] for a, b in est_iv]
+    if rng.random() < 0.1:   # stress: pitches off the lattice
+        est_p = [m + rng.choice([1e-9, 1e-6, 1e-3]) * (rng.random() - 0.5) for m in est_p]
     order = list(range(len(est_iv)))
     rng.shuffle(order)
     est_iv = [est_iv[i] for i in order]
